@@ -135,6 +135,56 @@ def variants_for(prop, root, table):
     return out, missing, len(fire | silent) + sum(1 for c in CUSTOM if c[0] == prop)
 
 
+def corpus_variants(prop, root):
+    """Stored independent changes (committed under seeded/ and benign/): [(kind, label, overlay dict)] for patches that
+    still apply to the current tree.  A seeded change is a 'break' for the properties its meta.json lists under
+    static_checks.reported_violation; every benign refactoring is a 'twin' for every property."""
+    import shutil
+    import subprocess
+    import tempfile
+    verif = HERE.parent
+    out = []
+    for base, kind in ((verif / 'seeded', 'break'), (verif / 'benign', 'twin')):
+        if not base.is_dir():
+            continue
+        for d in sorted(base.iterdir()):
+            patch = d / 'patch.diff'
+            if not patch.exists():
+                continue
+            if kind == 'break':
+                try:
+                    meta = json.loads((d / 'meta.json').read_text())
+                except Exception:
+                    continue
+                if prop not in meta.get('static_checks', {}).get('reported_violation', []):
+                    continue
+            tmp = pathlib.Path(tempfile.mkdtemp(prefix='sa-corpus-'))
+            try:
+                shutil.copytree(pathlib.Path(root) / 'concepts', tmp / 'concepts', ignore=shutil.ignore_patterns('__pycache__'))
+                r = subprocess.run(['patch', '-p1', '-s', '-i', str(patch)], cwd=tmp, capture_output=True, text=True)
+                if r.returncode:
+                    continue
+                overlay = {}
+                for f in (tmp / 'concepts').rglob('*.py'):
+                    rel = 'concepts/' + f.relative_to(tmp / 'concepts').as_posix()
+                    orig = pathlib.Path(root) / rel
+                    text = f.read_text(encoding='utf-8')
+                    if not orig.exists() or orig.read_text(encoding='utf-8') != text:
+                        overlay[rel] = text
+                out.append((kind, f'{base.name}/{d.name}', overlay))
+            finally:
+                shutil.rmtree(tmp, ignore_errors=True)
+    return out
+
+
+def _evaluate_overlay(args):
+    prop, overlay, root = args
+    model = Model(root, overlay=overlay)
+    rc, R = check.run_property(prop, 'quick', root, write=False, quiet=True, model=model)
+    detail = [l for l in R.lines if l.startswith(('VIOLATION', 'ANALYSIS-ERROR'))][:2]
+    return rc, detail
+
+
 def run(prop, root=None):
     root = str(root or repo_root())
     table = load_table()
@@ -144,8 +194,26 @@ def run(prop, root=None):
         return 2
     with mp.Pool(min(16, os.cpu_count() or 4)) as pool:
         results = pool.map(_evaluate, [(prop, f, src, root) for _, _, f, src in variants], chunksize=2)
+    corpus = corpus_variants(prop, root)
+    with mp.Pool(min(16, os.cpu_count() or 4)) as pool:
+        cres = pool.map(_evaluate_overlay, [(prop, ov, root) for _, _, ov in corpus], chunksize=1) if corpus else []
     failures = []
     nb = nt = 0
+    ncb = nct = nct2 = 0
+    for (kind, label, _), (rc, detail) in zip(corpus, cres):
+        if kind == 'break':
+            ncb += 1
+            if rc != 1:
+                failures.append(f'independently seeded change no longer reported (rc={rc}): {label} {detail}')
+        else:
+            if rc == 1:
+                failures.append(f'independent benign refactoring reported as a violation: {label} {detail}')
+            elif rc == 2:
+                nct2 += 1
+            else:
+                nct += 1
+    print(f'{prop} corpus: {ncb} independently seeded changes reported; {nct} independent benign refactorings silent, {nct2} not recognised (exit 2), none reported as violation'
+          if not any('independent' in f for f in failures) else f'{prop} corpus: FAILURES')
     for (kind, label, f, _), (rc, detail) in zip(variants, results):
         if kind == 'break':
             nb += 1
